@@ -1768,6 +1768,108 @@ def stream_populate(ctx):
                    observed=[d for d in diff if live.get(d[0]) == d[1]], model=[d for d in diff if model.get(d[0]) == d[1]], no_failing_input=True)
 
 
+# ---------------------------------------------------------------------------------------------------------------------
+# Formatter subclasses that override attributes()
+# ---------------------------------------------------------------------------------------------------------------------
+def hook_classes():
+    e = E()
+    fm = e["fm"]
+    if "hooks" in e:
+        return e["hooks"]
+
+    def unsorted(self, tag):          # the documentation's UnsortedAttributes
+        for k, v in tag.attrs.items():
+            yield k, v
+
+    def revsorted(self, tag):
+        return sorted(tag.attrs.items(), reverse=True)
+
+    def dropdata(self, tag):
+        return [(k, v) for k, v in super(type(self), self).attributes(tag) if not k.startswith("data-")]
+    hooks = {}
+    for code, fn in (("U", unsorted), ("R", revsorted), ("D", dropdata)):
+        for cname, base in (("F", fm.Formatter), ("H", fm.HTMLFormatter), ("X", fm.XMLFormatter)):
+            hooks[(code, cname)] = type(f"Hook{code}{cname}", (base,), {"attributes": fn})
+    e["hooks"] = hooks
+    return hooks
+
+
+def o_hook_attrs(code, tag, eab):
+    """what the subclass's attributes() is written to return, computed independently"""
+    items = list(tag.attrs.items())
+    if code == "U":
+        return items
+    if code == "R":
+        return sorted(items, key=lambda kv: kv[0], reverse=True)
+    return [(k, (None if eab and isinstance(v, str) and v == "" else v)) for k, v in sorted(items, key=lambda kv: kv[0]) if not k.startswith("data-")]
+
+
+class HookOracle(Oracle):
+    def __init__(self, opts, code):
+        super().__init__(opts)
+        self.code = code
+
+    def open_tag(self, t, void):
+        parts = []
+        for k, v in o_hook_attrs(self.code, t, self.o["eab"]):
+            if v is None:
+                parts.append(k)
+                continue
+            if isinstance(v, (list, tuple)):
+                v = " ".join(v)
+            parts.append(k + "=" + o_quote(self.sub(v)))
+        nm = (t.prefix + ":" if t.prefix else "") + t.name
+        return "<" + nm + ("".join(" " + p for p in parts)) + ((self.o["vecp"] or "") if void else "") + ">"
+
+
+def stream_hooks(ctx, n):
+    r = ctx.rng("hooks")
+    hooks = hook_classes()
+    lines, impl, metas = [], [], []
+    for i in range(n):
+        recipe = gen_recipe(r, i)
+        soup = build_tree(recipe)
+        code = r.choice("URD")
+        cname = r.choice("FHX")
+        o = {"es": r.choice(["xml", "html", "c0", "c2", None]), "eab": r.choice(EAB_VALUES), "vecp": r.choice(VECP_VALUES)}
+        if r.random() < 0.4:
+            o["cdata"] = r.choice(CDATA_VALUES)
+        spec = {"cls": {"F": "Fh", "H": "H", "X": "X"}[cname], "opts": o}
+        kw = dict(entity_substitution=es_value(o["es"]), empty_attributes_are_booleans=o["eab"], void_element_close_prefix=o["vecp"])
+        if "cdata" in o:
+            kw["cdata_containing_tags"] = None if o["cdata"] is None else set(o["cdata"])
+        f = hooks[(code, cname)](**kw) if cname != "F" else hooks[(code, cname)](E()["fm"].Formatter.HTML, **kw)
+        tags = [p_ for n_, p_ in all_nodes(soup) if is_tag(n_) and not n_.hidden]
+        if not tags:
+            continue
+        path = r.choice(tags)
+        nd = node_at(soup, path)
+        real = nd.decode(formatter=f)
+        opts = intended(spec)
+        pn = nd.parent.name if nd.parent is not None else None
+        want = HookOracle(opts, code).node(nd, pn)
+        case = {"op": "hook", "recipe": recipe, "path": list(path), "hook": code, "class": cname, "opts": o}
+        multi = any(is_tag(d) and len(d.attrs) > 1 for d, _ in all_nodes(nd))
+        ctx.case(("hook", i) if multi else None)
+        ctx.count(f"hook:{code}{cname}")
+        if real != want:
+            report(ctx, "attributes-hook", "output does not follow the attributes() of the Formatter subclass", case=case, expected=want,
+                   observed=real, kf=None)
+        pt = "N" if nd.parent is None else ptok(nd.parent.name)
+        g = graph_tokens(nd, ["html5", "c0", "c1", "c2", "c3", "c4"])
+        lines.append(f"c15 runhook {code} {ctor_fmt_tok(spec)} {pt} {len(g)} {' '.join(g)} {tree_tokens(nd)}".replace("  ", " "))
+        impl.append(ptok(real))
+        metas.append((case, real == want))
+    rep = Driver().ask(lines)
+    for l, a, b_, (case, ok) in zip(lines, impl, rep, metas):
+        if a != b_:
+            ctx.corr_disagreements += 1
+            if ok:
+                report(ctx, "hook-correspondence", "model and implementation disagree (attributes() hook)", case=case | {"line": l[:1500]},
+                       observed=unptok(a), model=unptok(b_) if b_[:1].isdigit() or b_ == "-" else b_, no_failing_input=True)
+    ctx.count("hook:requests", len(lines))
+
+
 def stream_corpus(ctx, batch):
     from .common import CORPUS
     d = CORPUS / "C15"
@@ -1806,6 +1908,7 @@ def run(ctx: Ctx):
     stream_attr_orders(ctx, batch, ctx.n(120, 800))
     stream_history(ctx, batch, ctx.n(250, 2500))
     stream_build(ctx, batch, ctx.n(150, 1500))
+    stream_hooks(ctx, ctx.n(300, 3000))
     batch.flush()
     stream_call_log(ctx, ctx.n(800, 6000))
     stream_subst(ctx)
@@ -1866,6 +1969,22 @@ def replay(path):
         b = build_tree(c["recipe_b"]).decode(formatter=fa)
         print("same attributes inserted in two orders:\n ", ascii(a), "\n ", ascii(b))
         return 0 if a == b else 1
+    if op == "hook":
+        soup = build_tree(c["recipe"])
+        nd = node_at(soup, tuple(c["path"]))
+        o = c["opts"]
+        kw = dict(entity_substitution=es_value(o["es"]), empty_attributes_are_booleans=o["eab"], void_element_close_prefix=o["vecp"])
+        if "cdata" in o:
+            kw["cdata_containing_tags"] = None if o["cdata"] is None else set(o["cdata"])
+        cls = hook_classes()[(c["hook"], c["class"])]
+        f = cls(**kw) if c["class"] != "F" else cls(E()["fm"].Formatter.HTML, **kw)
+        real = nd.decode(formatter=f)
+        spec = {"cls": {"F": "Fh", "H": "H", "X": "X"}[c["class"]], "opts": o}
+        want = HookOracle(intended(spec), c["hook"]).node(nd, nd.parent.name if nd.parent is not None else None)
+        print("subclass of", c["class"], "overriding attributes():", {"U": "items in insertion order", "R": "sorted in reverse", "D": "base answer minus data-*"}[c["hook"]], "options:", o)
+        print("implementation: ", ascii(real))
+        print("property demands:", ascii(want))
+        return 0 if real == want else 1
     if op == "build":
         b = builder_for(c["builder"])
         eet, pwt, cla = builder_effective(c["builder"], b)
